@@ -11,7 +11,9 @@ Differences from task.Clock that matter (DESIGN 6 C15, learned from a prototype)
     returns its internal list, and Spinner._clean would skip every other call
     while cancelling);
   * run() executes ONE delayed call at a time and looks at `running` after
-    each, so crash() takes effect immediately;
+    each, so crash() takes effect immediately; with batch=True it behaves like
+    the real reactor's runUntilCurrent instead: every call due at the same
+    instant runs in the same iteration, even after one of them called crash();
   * simultaneous calls are ordered by an explicit tie-break oracle (a list of
     choice indices consumed one per tie), the same oracle the Coq model
     (coq/Model/Reactor.v) takes as an argument;
@@ -34,8 +36,9 @@ class Hang(Exception):
 
 
 class VReactor:
-    def __init__(self, oracle=(), install_signals=True, interrupts=()):
+    def __init__(self, oracle=(), install_signals=True, interrupts=(), batch=False):
         self.clock = Clock()
+        self.batch = batch        # run every call due at the same instant in ONE iteration (like runUntilCurrent)
         self._interrupts = sorted(interrupts)   # instants at which a signal arrives and its handler calls self.stop()
         self.running = False
         self.really_stopped = False
@@ -43,6 +46,7 @@ class VReactor:
         self._selectables = []    # addReader/addWriter
         self._oracle = list(oracle)
         self._install_signals = install_signals
+        self.order = []           # every DelayedCall that ran, in order
         self.ties = 0             # how many ties were broken
         self.executed = 0
         self.stop_calls = 0
@@ -101,7 +105,14 @@ class VReactor:
             if not self.clock.calls:
                 self.running = False
                 raise Hang()
+            t = min(c.getTime() for c in self.clock.calls)
             self._run_one(None)
+            if self.batch:
+                # the real reactor's runUntilCurrent: whatever else is due at this instant runs in the same
+                # iteration, even when a call has crashed the reactor meanwhile; cancelled calls are gone
+                for _ in range(len(self.clock.calls)):
+                    if not self._run_one(None, at=t):
+                        break
 
     def _deliver_interrupt(self):
         """An interrupt (out of band, like a signal: not a DelayedCall) due at instant s is delivered before the
@@ -120,17 +131,17 @@ class VReactor:
         self.stop()
         return True
 
-    def _candidates(self, limit):
+    def _candidates(self, limit, at=None):
         calls = self.clock.calls
         if not calls:
             return []
-        t = min(c.getTime() for c in calls)
+        t = min(c.getTime() for c in calls) if at is None else at
         if limit is not None and t > limit:
             return []
         return [c for c in calls if c.getTime() == t]      # insertion order among equals (Clock sorts stably)
 
-    def _run_one(self, limit):
-        cands = self._candidates(limit)
+    def _run_one(self, limit, at=None):
+        cands = self._candidates(limit, at)
         if not cands:
             return False
         k = 0
@@ -144,6 +155,7 @@ class VReactor:
         self.clock.calls.remove(call)
         call.called = 1
         self.executed += 1
+        self.order.append(call)
         call.func(*call.args, **call.kw)
         return True
 
@@ -156,6 +168,7 @@ class VReactor:
                 self.clock.calls.remove(c)
                 c.called = 1
                 self.executed += 1
+                self.order.append(c)
                 c.func(*c.args, **c.kw)
 
     def crash(self):
